@@ -139,3 +139,28 @@ def writer_closure(repo: Repo, cls_names, roots) -> set:
                     allowed.add((cn, mname))
                     changed = True
     return allowed
+
+
+def flatten_self_calls(repo: Repo, cls_name: str, stmts, depth: int = 2):
+    """The statement list with every statement-level `self.m()` / `super().m()` call (no arguments) replaced by the body of the
+    method it resolves to (bounded depth): syntactic rules then see through an extracted helper."""
+    out = []
+    ci = repo.cls(cls_name)
+    for s in stmts:
+        if depth > 0 and isinstance(s, ast.Expr) and isinstance(s.value, ast.Call) and isinstance(s.value.func, ast.Attribute) \
+                and not s.value.args and not s.value.keywords:
+            f = s.value.func
+            owner_ok = (isinstance(f.value, ast.Name) and f.value.id == 'self') or \
+                (isinstance(f.value, ast.Call) and isinstance(f.value.func, ast.Name) and f.value.func.id == 'super')
+            target = None
+            if owner_ok:
+                for c in repo.mro(ci):
+                    if f.attr in c.methods:
+                        target = c.methods[f.attr]
+                        break
+            if target is not None and not any(isinstance(x, (ast.Return, ast.Yield)) and getattr(x, 'value', None) is not None for x in ast.walk(target)):
+                body = [b for b in target.body if not (isinstance(b, ast.Expr) and isinstance(b.value, ast.Constant))]
+                out += flatten_self_calls(repo, cls_name, body, depth - 1)
+                continue
+        out.append(s)
+    return out
